@@ -53,6 +53,7 @@ pub struct RunOut {
 
 thread_local! {
     static RETRIES: std::cell::Cell<u32> = const { std::cell::Cell::new(0) };
+    static BIG_RUNS: std::cell::Cell<[u32; 2]> = const { std::cell::Cell::new([0, 0]) };
 }
 
 /// `FUEL` steps first; a search that needs more (legitimately: nested `.*` under a counted loop is
@@ -254,9 +255,22 @@ pub fn engine(rep: &mut Report, focus: &str, n: usize, seed: u64, thorough: bool
                         for (name, exec, r) in [("backtracking", Exec::Bt, &mut bt), ("PikeVM", Exec::Pk, &mut pk)] {
                             if r.text == "fuel" {
                                 rep.count("needed-more-than-3M-steps");
-                                *r = run_exec_budget(&c.opt, exec, &hay, start, 64, FUEL_BIG);
+                                // the large budget costs seconds (backtracker) to minutes (PikeVM: every step copies a
+                                // thread): at most eight such runs per executor and process, and a smaller one for the PikeVM
+                                let big = if matches!(exec, Exec::Pk) { FUEL_BIG / 8 } else { FUEL_BIG };
+                                let used = BIG_RUNS.with(|c| c.get());
+                                if used[(exec as usize) & 1] >= 8 {
+                                    rep.count("big-budget-runs-exhausted");
+                                    continue;
+                                }
+                                BIG_RUNS.with(|c| {
+                                    let mut u = c.get();
+                                    u[(exec as usize) & 1] += 1;
+                                    c.set(u)
+                                });
+                                *r = run_exec_budget(&c.opt, exec, &hay, start, 64, big);
                                 if r.text == "fuel" {
-                                    rep.violation("impl-vs-spec:C05", format!("{} did not finish within {} steps", name, FUEL_BIG), label.clone());
+                                    rep.violation("impl-vs-spec:C05", format!("{} did not finish within {} steps", name, big), label.clone());
                                 }
                             }
                         }
